@@ -342,3 +342,16 @@ Theorem source_conv_embedding (nm : cnorm) (se ub : bool) (n d o : nat) (A X W :
             forall i c, (i < n)%nat -> f i c = conv_spec nm se ub n d A X W b i c.
 Proof. exact (NpConvProofs.source_conv_embedding nm se ub n d o A X W b). Qed.
 Print Assumptions source_conv_embedding.
+
+(** ... "so renumbering the nodes permutes the rows of the output": for EVERY permutation p of the n nodes
+    ([perm_on n p]), the embedding computed from the renumbered graph (A' i j = A (p i) (p j)) and the renumbered feature rows
+    (X' i = X (p i)) has at row i the row p i of the embedding of the original data, for every normalisation and both options. *)
+From SKN Require Import Proofs.NpEquivariance.
+Theorem source_conv_renumbering (nm : cnorm) (se ub : bool) (n d o : nat) (p : nat -> nat) (A X W : nat -> nat -> R) (b : nat -> R) :
+  perm_on n p ->
+  exists f' f,
+    rvdenote (env_conv n d o (pmat p A) (fun i k => X (p i) k) W b se ub) (src_of nm) = Some (WM n o f') /\
+    rvdenote (env_conv n d o A X W b se ub) (src_of nm) = Some (WM n o f) /\
+    forall i c, (i < n)%nat -> f' i c = f (p i) c.
+Proof. exact (NpEquivariance.source_conv_renumbering nm se ub n d o p A X W b). Qed.
+Print Assumptions source_conv_renumbering.
